@@ -23,7 +23,7 @@ def main():
     sid = f"{prop}-{seed[-1]}"
     out = {"id": sid, "property": prop, "source": "independent sub-agent (given only the property text and a scratch worktree)"}
     env = dict(os.environ, PYTHONPATH=wt)
-    sh("git checkout -- . && git clean -fdq -e "SEED_*"", cwd=wt)
+    sh("git checkout -- . && git clean -fdq -e 'SEED_*'", cwd=wt)
     r0 = sh(f"/venv/bin/python {demo}", cwd=wt, env=env, timeout=600)
     out["demo_without_change"] = {"exit": r0.returncode, "tail": (r0.stdout + r0.stderr)[-300:]}
     ra = sh(f"git apply {patch}", cwd=wt)
@@ -48,7 +48,7 @@ def main():
     out["checks_fired"] = fired
     out["caught_by_own_property_check"] = prop in fired and fired[prop]["exit"] == 1
     out["caught_by_any_check"] = any(v["exit"] == 1 for v in fired.values())
-    sh("git checkout -- . && git clean -fdq -e "SEED_*"", cwd=wt)
+    sh("git checkout -- . && git clean -fdq -e 'SEED_*'", cwd=wt)
     confirmed = out["demo_without_change"]["exit"] == 0 and out["demo_with_change"]["exit"] != 0 and out["tests_with_change"]["same_as_baseline"]
     out["confirmed"] = confirmed
     out["what_i_ran"] = [f"cd {wt} && PYTHONPATH={wt} /venv/bin/python {seed}/demo.py  (clean tree)", f"git -C {wt} apply {seed}/patch.diff",
